@@ -279,7 +279,20 @@ def corpus():
     anoninst = {"bundles": [bsub, diff3], "top": "Top", "modules": [hasbs, {"name": "Top", "sigs": [{"n": "cs", "w": 1, "port": True, "dir": "none"}],
                 "bundles": [{"n": "d3", "of": "Diff3", "port": False}],
                 "insts": [{"n": "i", "of": {"k": "module", "name": "HasBS"}, "conns": [["bp", {"k": "anon", "fields": [["d", {"k": "bundle", "n": "d3"}], ["c", {"k": "sig", "n": "cs"}]]}]]}]}]}
-    more = hidden + [{"class": "bad_member", "site": "corpus:bundle-instance-of-wider-type-in-anonymous-bundle", "design": anoninst}] + [{"class": "noconn_referenced", "site": "corpus:reference-in-anonymous-bundle", "design": ncanon},
+    # a member the port's bundle does not have, listed after / before / inside a nested anonymous bundle
+    extra_after = []
+    sgl = lambda n: {"n": n, "w": 1, "port": False, "dir": "none"}
+    for where in ("after", "before", "inside"):
+        inner_f = [["p", {"k": "sig", "n": "s1"}], ["n", {"k": "sig", "n": "s2"}]] + ([["zz", {"k": "sig", "n": "s4"}]] if where == "inside" else [])
+        fields = [["d", {"k": "anon", "fields": inner_f}], ["c", {"k": "sig", "n": "s3"}]]
+        if where == "after":
+            fields = fields + [["zz", {"k": "sig", "n": "s4"}]]
+        if where == "before":
+            fields = [["zz", {"k": "sig", "n": "s4"}]] + fields
+        dd = {"bundles": [bsub], "top": "Top", "modules": [copy.deepcopy(hasbs), {"name": "Top", "sigs": [sgl("s1"), sgl("s2"), sgl("s3"), sgl("s4")], "bundles": [],
+              "insts": [{"n": "i", "of": {"k": "module", "name": "HasBS"}, "conns": [["bp", {"k": "anon", "fields": fields}]]}]}]}
+        extra_after.append({"class": "bad_member", "site": f"corpus:extra-member-{where}-nested-anonymous-bundle", "design": dd})
+    more = hidden + extra_after + [{"class": "bad_member", "site": "corpus:bundle-instance-of-wider-type-in-anonymous-bundle", "design": anoninst}] + [{"class": "noconn_referenced", "site": "corpus:reference-in-anonymous-bundle", "design": ncanon},
                      {"class": "bad_member", "site": "corpus:pair-on-wider-bundle-type", "design": pairtri}]
     return more + [{"class": "missing_connection", "site": "corpus", "design": d1}, {"class": "width_mismatch", "site": "corpus", "design": d2},
             {"class": "bad_index", "site": "corpus", "design": d3}, {"class": "bad_index", "site": "corpus:int-at-width", "design": d4}] + extras
